@@ -26,7 +26,7 @@ MODULES = ("C01", "C02", "C03", "C04", "C05", "C06", "C07", "C09", "C13", "C14",
 
 
 def check(ctx):
-    lib_cfgs = facts.LIB_ALL if ctx.tier == "thorough" else facts.LIB_QUICK
+    lib_cfgs = facts.LIB_ALL if ctx.tier == "thorough" else facts.LIB_QUICK + [facts.Config("lib", ["frontend"])]
     default_name = facts.Config("lib").name
     rule = "C12.diff"
     ctx.rule(rule, "an obligation of a library-level rule suite refuted under a non-default feature set while discharged or absent under the default set is a "
